@@ -1,0 +1,32 @@
+//go:build verif
+
+// Package verifhook provides instrumentation points for the external
+// verification harness. With the "verif" build tag, At forwards to the
+// handler installed by the harness (recorder and/or scheduler gate).
+package verifhook
+
+import "sync/atomic"
+
+// Enabled reports whether the hooks are compiled in.
+const Enabled = true
+
+// Handler receives every instrumentation point hit. It may block (gate).
+type Handler func(point string, args ...any)
+
+var handler atomic.Pointer[Handler]
+
+// Set installs (or removes, with nil) the handler.
+func Set(h Handler) {
+	if h == nil {
+		handler.Store(nil)
+		return
+	}
+	handler.Store(&h)
+}
+
+// At marks an instrumentation point.
+func At(point string, args ...any) {
+	if h := handler.Load(); h != nil {
+		(*h)(point, args...)
+	}
+}
